@@ -1853,7 +1853,7 @@ def _find_free_fn(mir, callee, m):
 
 
 GENERIC_PATH_INLINE = [
-    (rx(r"^(?:sys::fs::path::)?(clean|concat|dir|base|ext|first|name|has|has_prefix|has_suffix|last|mash|relative|trim_ext|trim_first|trim_last|trim_prefix|trim_protocol|trim_suffix|is_empty)(?:::<.*>)?$"),
+    (rx(r"^(?:sys::fs::path::)?(clean|concat|dir|base|ext|expand|first|name|has|has_prefix|has_suffix|last|mash|relative|trim_ext|trim_first|trim_last|trim_prefix|trim_protocol|trim_suffix|is_empty)(?:::<.*>)?$"),
      _find_free_fn),
     (rx(r"^<(?:Path|PathBuf) as (?:sys::fs::path::)?PathExt>::(\w+)(?:::<.*>)?$"), _find_free_fn),
 ]
@@ -2901,3 +2901,197 @@ _mk_expand(7, 7, 1, "thorough")
 _mk_expand(5, 5, 2, "thorough")
 _mk_expand(6, 6, 2, "thorough")
 _mk_expand(5, 6, 0, "thorough")
+
+
+# ------------------------------------------------------------------------------------------------
+# C05: Memfs::_abs / Stdfs::abs on text, cwd symbolic
+# ------------------------------------------------------------------------------------------------
+def trim_protocol_oracle(ex, st, p):
+    low = [M.ascii_lower(c) for c in p]
+    for sch in SCHEMES:
+        k = len(sch)
+        if len(p) >= k and ex.decide(st, M.chars_eq(low[:k], [TP.ch(ord(x)) for x in sch])):
+            return p[k:]
+    return p
+
+
+def abs_oracle(ex, st, s, cwd, tenv):
+    """('ok', chars) | ('err', reason) | ('skip',)"""
+    if not s:
+        return ("err", "empty path")
+    e = expand_oracle(ex, st, s, tenv)
+    if e[0] == "skip":
+        return ("skip",)
+    if e[0] == "err":
+        return ("err", "invalid expansion")
+    t = trim_protocol_oracle(ex, st, e[1])
+    c = TP.go_clean_text(ex, st, t)
+    if c and ex.decide(st, TP.is_ch(c[0], TP.SLASH)):
+        return ("ok", c)
+    # relative: '..' may not climb above the root of cwd
+    toks = comps_of(ex, st, c)
+    ups = 0
+    while ups < len(toks) and toks[ups].kind == PARENT:
+        ups += 1
+    depth = len([x for x in comps_of(ex, st, cwd) if x.kind == NORMAL])
+    if ups > depth:
+        return ("err", "'..' climbs above the root")
+    buf = TP.PathBufT(cwd)
+    TP.push_text(ex, st, buf, c)
+    return ("ok", TP.go_clean_text(ex, st, buf.chars))
+
+
+def run_abs(ctx, prop, nmax, cmax, vlen, tag="c05_abs", nmin=1):
+    t0 = time.time()
+    solver = ctx.solver(tag)
+    tenv = M.TextEnv(solver, vlen)
+
+    def m_cwd(ex, st, args, callee, ty):
+        return TP.PathBufT(st.meta["cwd"])
+
+    def m_cwd_result(ex, st, args, callee, ty):
+        return Adt("Result", 0, "Ok", [TP.PathBufT(st.meta["cwd"])])
+
+    own = [(rx(r"^MemfsGuard::<'_>::cwd$"), m_cwd), (rx(r"^(?:stdfs::)?Stdfs::cwd$"), m_cwd_result)]
+    models = own + M.make_expand_models(tenv) + TP.make_textpath_models() + make_pathtext_models()
+    ex = new_executor(ctx, solver, models, EXPAND_INLINE + COMPONENT_INLINE + RIVIA_INLINE + PATHTEXT_INLINE + GENERIC_PATH_INLINE,
+                      max_block_visits=8 * (nmax + cmax) + 60)
+    ex.enum_hook = TP.text_enum_hook
+    targets = [("Memfs::_abs", ctx.mir.get(r"^fn memfs::vfs::<impl at src/sys/fs/memfs/vfs\.rs[^>]*>::_abs\("), 3),
+               ("Stdfs::abs", ctx.mir.get(r"^fn stdfs::<impl at src/sys/fs/stdfs/mod\.rs[^>]*>::abs\(_1: T\)"), 1)]
+    ob = Obl()
+    unit = dict(status="pass", failures=[])
+    for tname, fn, nparams in targets:
+        for n in range(nmin, nmax + 1):
+            for lc in range(1, cmax + 1):
+                chars, cons = sym_text(solver, "ab_%s_%d_%d" % (tname[0], n, lc), n, ascii_only=True)
+                cons = cons + ["(not (= %s #x00000000))" % c.v for c in chars]
+                cw, _ = sym_text(solver, "ab_%s_%d_%d_cwd" % (tname[0], n, lc), lc)
+                cons += ["(or %s)" % " ".join("(= %s (_ bv%d 32))" % (c.v, ord(k)) for k in "/ab") for c in cw]
+                g = {"s": chars, "cwd": cw}
+
+                def on_path(st, chars=chars, cw=cw, g=g, tname=tname, fn=fn, nparams=nparams, n=n):
+                    cf = lambda extra: text_model(ex, st, g, extra)
+                    if st.meta.get("stage") == 0:
+                        if not ex.decide(st, TP.is_ch(cw[0], TP.SLASH)):
+                            return
+                        if not ex.decide(st, text_eq(TP.go_clean_text(ex, st, cw), cw)):
+                            return
+                        args = [BoxRef(M.SStr(chars))]
+                        if nparams == 3:
+                            args = [BoxRef(Adt("Memfs", None, None, [])), BoxRef(Adt("MemfsGuard", None, None, []))] + args
+                        st1 = ex.start(fn, args)
+                        st1.pc = list(st.pc)
+                        st1.meta = dict(stage=1, cwd=list(cw))
+                        return [st1]
+                    if st.panic or st.bound_hit:
+                        ob.total += 1
+                        ob.failures.append(dict(kind="panic" if st.panic else "bound", where=tname, cex=cf([]), st_pc=list(st.pc), fn=tname,
+                                                desc="C12: %s panics/loops: %s" % (tname, st.panic or st.bound_hit)))
+                        return
+                    kind, txt = result_text(st.retval)
+                    o = abs_oracle(ex, st, chars, cw, tenv)
+                    if o[0] == "skip":
+                        return
+                    if o[0] == "err":
+                        ob.prove(ex, st, "C05: %s must fail (%s) (n=%d)" % (tname, o[1], n), B(kind == "err"), cf) or \
+                            ob.failures[-1].update(st_pc=list(st.pc), fn=tname, where=tname)
+                        return
+                    if kind != "ok":
+                        ob.total += 1
+                        ob.failures.append(dict(kind="functional", where=tname, cex=cf([]), st_pc=list(st.pc), fn=tname,
+                                                desc="C05: %s fails although the path is non-empty, expands and does not climb above the root (n=%d)" % (tname, n)))
+                        return
+                    ob.prove(ex, st, "C05: %s(p) is the clean absolute path of p joined lexically onto the cwd (n=%d)" % (tname, n),
+                             text_eq(txt, o[1]), cf) or ob.failures[-1].update(st_pc=list(st.pc), fn=tname, where=tname)
+                    ob.prove(ex, st, "C05: %s(p) is absolute and clean" % tname,
+                             b_and(TP.is_ch(txt[0], TP.SLASH) if txt else B(False), text_eq(TP.go_clean_text(ex, st, txt), txt)), cf) or \
+                        ob.failures[-1].update(st_pc=list(st.pc), fn=tname, where=tname)
+                    if len(ob.samples) < 4 and n == nmax:
+                        m = cf([])
+                        if m:
+                            ob.samples.append(dict(function=tname, s=m["s"], cwd=m["cwd"]))
+
+                from .mirsym.engine import State
+                st0 = State()
+                st0.done = True
+                st0.meta = dict(stage=0)
+                st0.pc = cons
+                ex.explore(st0, on_path)
+    seen = set()
+    for f in ob.failures:
+        if f["kind"] == "bound" or f["cex"] is None:
+            unit["status"], unit["why"] = "inconclusive", f["desc"]
+            continue
+        key = (f["fn"], f["cex"]["s"], f["cex"]["cwd"])
+        if key in seen or len(seen) >= 4:
+            continue
+        seen.add(key)
+        s, cwd = f["cex"]["s"], f["cex"]["cwd"]
+        src0, note = expand_replay_src(ex, tenv, f, s)
+        envlines = "".join(l + "\n" for l in src0.split("\n") if "set_var" in l or "remove_var" in l)
+        import re as _re
+        envd = eval(note[4:]) if note.startswith("env=") else {}
+        e = py_expand(s, envd)
+        exp = None
+        if s and e is not None:
+            t = e
+            for sch in SCHEMES:
+                if t.lower().startswith(sch):
+                    t = t[len(sch):]
+                    break
+            c = py_go_clean(t)
+            if c.startswith("/"):
+                exp = c
+            else:
+                ups = 0
+                for seg in c.split("/"):
+                    if seg == "..":
+                        ups += 1
+                    else:
+                        break
+                depth = len([x for x in cwd.split("/") if x])
+                exp = None if ups > depth else py_go_clean(cwd.rstrip("/") + "/" + c)
+        if f["fn"].startswith("Memfs"):
+            mk = '    let vfs = Memfs::new();\n    vfs.mkdir_p(%s).unwrap();\n    vfs.set_cwd(%s).unwrap();\n    let got = vfs.abs(%s);\n' % (rs_str(cwd), rs_str(cwd), rs_str(s))
+        else:
+            mk = '    let root = std::env::temp_dir().join(format!("rivia_c05_{}", std::process::id()));\n' \
+                 '    let _ = std::fs::remove_dir_all(&root);\n    std::fs::create_dir_all(&root).unwrap();\n' \
+                 '    // Stdfs resolves against the process cwd: the replay compares with the same lexical rule on the real cwd\n' \
+                 '    let got = Stdfs::abs(%s);\n' % rs_str(s)
+        if f["fn"].startswith("Memfs"):
+            chk = ('    assert!(got.is_err(), "C05: expected an error, got {:?}", got);\n' if exp is None else
+                   '    assert_eq!(got.expect("C05: expected Ok").to_str().unwrap(), %s, "C05: abs");\n' % rs_str(exp))
+        else:
+            chk = '    let _ = got;\n    panic!("C05: Stdfs::abs counterexample (cwd %s): reproduce under that working directory");\n' % cwd.replace('"', "'")
+        src = "use rivia::prelude::*;\n#[test]\nfn replay_abs() {\n    // %s\n%s%s%s}\n" % (f["desc"], envlines, mk, chk)
+        r = native_test(src, ctx.logdir, "%s_%d" % (tag, len(seen)))
+        reproduced = r["ran"] and r["failed"] > 0 and f["fn"].startswith("Memfs")
+        rec = dict(kind=f["kind"], desc='"%s" s=%r cwd=%r %s' % (f["desc"], s, cwd, note), where=f["fn"], reproduced=reproduced,
+                   replay_outcome=r["out"][-400:])
+        if reproduced:
+            rec["replay"] = save_replay(prop, tag, src, f["desc"], dict(failed=r["failed"]))
+        unit["failures"].append(rec)
+        unit["status"] = "violation"
+    return finish(unit, ex, solver, ob, t0, dict(models_used="text-level std::path/str models; symbolic cwd (clean absolute text); environment as uninterpreted functions of the variable name"))
+
+
+ABS_FUNCS = ["Memfs::_abs (real MIR)", "Stdfs::abs (real MIR)",
+             "sys::{expand,trim_protocol,clean,trim_first,dir,mash,is_empty} and IteratorExt::first_result (real MIR, inlined)"]
+
+
+def _mk_abs(n0, n1, cmax, vlen, tier):
+    @job("c05_abs_n%d_%d_c%d" % (n0, n1, cmax), ["C05", "C12"], tier, functions=ABS_FUNCS,
+         bounds="every ASCII path text of %d..=%d chars x every clean absolute cwd of <= %d chars over {'/','a','b'}; environment values of %d char(s)" % (n0, n1, cmax, vlen))
+    def f(ctx, prop):
+        u = run_abs(ctx, prop, n1, cmax, vlen, nmin=n0, tag="c05_abs_n%d_%d_c%d" % (n0, n1, cmax))
+        if n0 == 1:
+            u["planted_mutants"] = planted_mutants(ctx, lambda: run_abs(ctx, prop, 2, 2, 1, tag="c05_plant"), sites=(0, 1, 2, 3, 4, 5))
+        return u
+    return f
+
+
+_mk_abs(1, 3, 4, 1, "quick")
+_mk_abs(4, 4, 3, 1, "quick")
+_mk_abs(4, 4, 5, 1, "thorough")
+_mk_abs(5, 5, 4, 1, "thorough")
